@@ -16,7 +16,7 @@ EXPECTED_RDB_CONSTS = {
 }
 
 PROP = {
-    "lean_modules": ["GunYu.Props.C03"],
+    "lean_modules": ["GunYu.Props.C03", "GunYu.Props.C03S5"],
     "audit_namespaces": ["GunYu.Props.C03"],
     "required_theorems": [
         "GunYu.Props.C03.crc64_tab_eq_jones",
@@ -61,8 +61,20 @@ PROP = {
         "GunYu.Props.C03.oracle_keys_commute",
         "GunYu.Props.C03.fanout_parallel_partial",
         "GunYu.Props.C03.fanout_parallel",
+        "GunYu.Props.C03.zipmap_roundtrip",
+        "GunYu.Props.C03.zipmap_expand_roundtrip",
+        "GunYu.Props.C03.module_v1_refused",
+        "GunYu.Props.C03.module_v1_ends_parse",
+        "GunYu.Props.C03.stream_cmds_name_key",
+        "GunYu.Props.C03.zset_v1_score_roundtrip",
+        "GunYu.Props.C03.zset_v1_expand_roundtrip",
     ],
-    "expected_facts": {"crc64tab_len": 256, "rdb_consts": EXPECTED_RDB_CONSTS},
+    "expected_facts": {"crc64tab_len": 256, "rdb_consts": EXPECTED_RDB_CONSTS,
+                       # repair of C03-F1: the model is of a loader built WithStreamIdleConsumers; these are all the
+                       # production sites that parse a snapshot and where the option is passed (sendRdb takes
+                       # ro.rdbParseOptions())
+                       "idle_consumer_option_sites": ["syncer/output.go:rdbParseOptions", "cmd/rdb.go:Print"],
+                       "rdb_parse_sites": ["syncer/output.go:sendRdb:ParseRdb", "cmd/rdb.go:Print:ParseRdb"]},
     "harness": [
         {"name": "C03dec", "pkg": "./pkg/rdb/", "test": "TestVerifC03Dec"},
         {"name": "C03replay", "pkg": "./syncer/", "test": "TestVerifC03Replay"},
@@ -115,6 +127,19 @@ PROP = {
             "stream_with_consumer_without_pending, stream_group_entries_read_unknown, ...; replayed_* = the ones that went "
             "through the expansion path of the real replay). Routing: the l2 model routes an entry by the key it is REPLAYED "
             "to (dstKey; /repo 630424b). "
+            "Session 5: zipmaps (type 9) with items on both sides of the one-byte / five-byte length form (252..257, 300, 1000, "
+            "70000 bytes) and with 253..300 pairs (<zmlen> saturated: counting walk) - kinds hzm_biglen / hzm_manypairs; "
+            "old-format sorted sets (type 3) whose scores are arbitrary decimal texts (kind zs1_decimal_text: `%.17g` of random "
+            "doubles, shortest form, fixed / exponent forms with too few or too many digits, texts exactly half way between two "
+            "doubles and one digit beside, subnormals, the largest double): the real ReadFloat (strconv.ParseFloat) against the "
+            "Lean model's exact rational rounding (Model/Rdb/Float.lean parseF64), bit pattern by bit pattern; a module value of "
+            "the old format (type 6) is refused by code and model alike (corpus m6); the C03dec loader is built with "
+            "rdb.WithStreamIdleConsumers like the production call sites (source facts idle_consumer_option_sites / "
+            "rdb_parse_sites: every non-test rdb.ParseRdb / rdb.NewLoader site and where the option is passed); since /repo "
+            "e867911 (another owner's fix) rdbReplay also withholds an entry whose TARGET key under ReplaceHashTag lies in the "
+            "tool's own namespaces: part of the filterKey parameter the driver builds (Drive/C03.lean targetReserved) and of the "
+            "monitor's independent decision (vfc03.FilterSpec.RHT); a consumer "
+            "without pending entries missing on a 6.2+ target is the violation stream-idle-consumer-missing. "
             "distinct_nontrivial = (kind, value-shape) classes seen",
     "trusted": [
         "RDB on-disk encodings as transcribed in Model/Rdb/{Str,Ziplist,Listpack,Stream,Enc}.lean (encoders = specification: "
@@ -135,13 +160,27 @@ PROP = {
         "Forms the tool never sends (other min-idle-time, several ids, IDLE, no JUSTID/FORCE) are outside the oracle (none)",
         "the version-aware oracle RedisSem.applyCmdsV (Model/Rdb/TargetV.lean): RESTORE of a value type the target cannot "
         "load = error reply without effect (typeLoadable, a transcription)",
-        "strconv float formatting/parsing (float64 scores are carried by bit pattern; old-format zset scores modelled for "
-        "integers < 2^53, inf, nan only), Go channel FIFO order per worker, testing/synctest virtual clock",
+        "strconv.ParseFloat(s, 64) on an old-format zset score (session 5, stated in Model/Rdb/Float.lean): correctly rounded - "
+        "the nearest binary64, ties to even, subnormals included - on the grammar [+-]digits[.digits][(e|E)[+-]digits] and "
+        "[+-]inf / [+-]infinity / nan (any case); a magnitude that rounds to 2^1024 or more is an ERROR (ErrRange: the read "
+        "fails), underflow is not. The model parseF64 computes exactly that with rational arithmetic and is compared with "
+        "the real strconv on every generated text; NOT modelled (model: error): hexadecimal floats and `_` digit separators, "
+        "which no Redis writes. float64 formatting of ZADD scores: carried by bit pattern, rendered by the client's real "
+        "proto.Writer and parsed back. Go channel FIFO order per worker, testing/synctest virtual clock",
     ],
     "assumptions": [
-        "decoder/expansion/replay models are hand-written and tied by correspondence (not regenerated); CRC64 table and RDB "
-        "constants are regenerated from the Go source each run",
-        "models are of the REPAIRED behaviour for D8, D9, D10, D11, N1 (own fix: commits) and for the C04/C20 fixes they "
+        "decoder/expansion/replay models are hand-written and tied by correspondence (not regenerated) except: CRC64 table, "
+        "RDB constants (regenerated each run) and - by the gofn owner, checks/p/x_C03_gofn.py - digest.update, lpEncodeBacklen "
+        "and Listpack.Next, regenerated and proved equal to the hand model; the ziplist / intset / zipmap / length readers work "
+        "on *util.SliceBuffer / *RdbReader (stateful readers that panic), outside the translator's subset: asked for in the report",
+        "zipmaps below 2 GiB - 255 bytes: SliceBuffer.Seek refuses positions >= 2^31, the model keeps the rest of the buffer, "
+        "not the position (Model/Rdb/Ziplist.lean); a zipmap is the layout Redis 2.2 .. 8.x read (ZIPMAP_BIGLEN 254, 4 bytes "
+        "little endian) - the Redis 2.0 layout (253 / 254 = empty space) is not read by any Redis the property names",
+        "the stream expansion is modelled for a loader built with rdb.WithStreamIdleConsumers (repair of C03-F1): both "
+        "production call sites pass it (source fact); the library default without the option (what the repo's own "
+        "TestStream runs) expands without XGROUP CREATECONSUMER and is not modelled",
+        "models are of the REPAIRED behaviour for D8, D9, D10, D11, N1, N2, Z1/Z2 (zipmap, 5c537f6), F1 (idle consumers, ecb288f) "
+        "(own fix: commits) and for the C04/C20 fixes they "
         "depend on (Loader.End, listpack invalid encoding = error, Bad-data-format fallback keeps policy and expiry, empty "
         "key routed by hash); witnesses in corpus/C03",
         "a worker that hits an error cancels the sync: the model does not describe the requests other workers issue after that",
@@ -184,9 +223,11 @@ PROP = {
         "xval: (a) pending ids whose entry was deleted/trimmed - ordinary production data; XCLAIM FORCE is a no-op for them, "
         "no command recreates them, Redis' own AOF rewrite loses them the same way (generated now: "
         "stream_with_pending_id_of_deleted_or_trimmed_entry, observation counter xclaim_for_an_id_that_is_not_an_entry...); "
-        "(b) a consumer all of whose pending ids are such; (c) a consumer with an EMPTY PEL = KNOWN FINDING C03-F1 (the tool "
-        "emits no XGROUP CREATECONSUMER; reported by the monitor as stream-idle-consumer-dropped with a replay; repair not "
-        "applied because the repo's own TestStream pins the command sequence; spec: consumersX vs consumersIdeal); (d) "
+        "(b) a consumer all of whose pending ids are such; (c) a consumer with an EMPTY PEL on a target OLDER THAN 6.2 (no command exists; on "
+        "6.2+ it is recreated by XGROUP CREATECONSUMER since session 5: known finding C03-F1 REPAIRED, /repo ecb288f, behind "
+        "the loader option rdb.WithStreamIdleConsumers both production call sites pass, which is what keeps the repo's own "
+        "TestStream - it builds its loader without the option - passing; model streamConsumers cc, spec consumersIdeal, "
+        "stream_roundtrip / full_sync_streams / expand_path_existing / restore_fallback_path re-proved for it); (d) "
         "consumer seen-time/active-time, the first-id field (recomputed by the target), the IDMP state of type 26; LASTID "
         "is not sent with XCLAIM. `sound` = what a Redis server guarantees (ids without 64-bit wrap, increasing, above 0-0, "
         "none above the last id; length = live entries; every entry has a field; entries-added a long long >= length; "
@@ -241,15 +282,28 @@ PROP = {
         "worker) but not part of the theorem; a worker that fails cancels the others (not modelled); fanOut_keeps_order / "
         "fanOut_same_key stay close to the definition of the model's fan-out",
         "existing_key_partial: expand_path / expand_path_final / expand_roundtrip_frame are for a key that does not exist on "
-        "the target; the probe+DEL branch for an existing key under `replace` is in the model and the correspondence "
-        "(pre-populated keys) but its theorem belongs to C20; raw_is_encode has no counterpart for streams and modules "
+        "the target; for a key the target already holds: expand_path_existing (entry level, C03's oracle) and - session 5 - "
+        "C20's whole-run theorems (replace / ignore / error) applied to C03's loader model: Props/C20Loader.lean discharges "
+        "C20's Group / Value from C03's Next theorems for strings / lists / sets / zsets / hashes, and C03's NEW "
+        "stream_cmds_name_key (every command of a stream expansion, on ANY buffer, names the key at its key position) "
+        "discharges C20's open loader_stream_stmt (Props/C20StreamS5.lean loader_stream_from_c03, registered through "
+        "checks/p/x_C20_c03.py) - imported, not restated; raw_is_encode has no counterpart for streams and modules "
         "(CLOSED session 4: raw_is_encode_opaque - ReadBuffer consumes exactly the serialization of a stream / module value, "
         "so their RESTORE payload is byte for byte type + serialization + footer)",
-        "zset_v1_scores_partial: RDB_TYPE_ZSET (type 3, Redis < 4.0) ASCII scores are modelled for integers below 2^53, inf, nan",
-        "zipmap_partial: type 9 (Redis < 2.6) modelled for < 254 items of < 253 bytes",
+        "zset_v1_scores (CLOSED session 5, was zset_v1_scores_partial): RDB_TYPE_ZSET (type 3) ASCII scores are modelled for "
+        "EVERY decimal text and inf / infinity / nan (zset_v1_score_roundtrip, zset_v1_expand_roundtrip over Score1.wf = "
+        "`parseF64 accepts the text`); what remains is TRUSTED, not partial: that strconv.ParseFloat rounds correctly (see "
+        "trusted) - no theorem says that `%.17g` of a double reads back to it (17 digits suffice: a property of binary64, not "
+        "of the tool); hex floats / underscores not modelled",
+        "zipmap (CLOSED session 5, was zipmap_partial): type 9 modelled and proved for ANY number of pairs (<zmlen> exact "
+        "below 254, counting walk above) and item lengths below 2^32 (one-byte and 254 + 4-byte little-endian forms): "
+        "zipmap_roundtrip, zipmap_expand_roundtrip; lifting the bound found two defects of the reader (Z1 item lengths >= 253, "
+        "Z2 maps of >= 254 pairs; /repo 5c537f6)",
         "module values: type 7 is carried by full_sync_streams on the RESTORE path (expansion refused by the code = sync "
-        "fails, excluded); type 6 (module v1) is refused by the parser (`does not support module type 1`), not in the model's "
-        "datasets; module aux skipped/refused per policy (skip proved, fail = refused)",
+        "fails, excluded); type 6 (module v1) is refused by the parser (`does not support module type 1`): now theorems about "
+        "the parser model - module_v1_refused (Next fails at such a key item whatever follows the type byte, any expiry / idle "
+        "/ freq prefix) and module_v1_ends_parse (no entry for it or any later key, Done is not reached) - tied by corpus "
+        "m6_module_v1; module aux skipped/refused per policy (skip proved, fail = refused)",
     ],
     "driver": "drv_C03",
 }
@@ -266,11 +320,15 @@ MANIFEST = {
             "(full_sync_streams); Bad-data-format fall-back per entry (restore_fallback_path). Decoder, expansion and replay models are "
             "tied to pkg/rdb, pkg/redis/types, pkg/rdbrestore and syncer.sendRdb by differential correspondence on snapshots "
             "the Lean encoder generates + the repo's Redis-produced fixtures, with a keyspace-reconstructing monitor. "
-            "Five defects found by the check and fixed (D8, D9, D10, D11, N1).",
+            "Session 5: zipmaps of any size, old-format zset scores for every decimal text (exact rational rounding model of "
+            "strconv.ParseFloat), module v1 refusal, stream expansion names the key (discharges C20's loader_stream_stmt). "
+            "Defects found by the check and fixed: D8, D9, D10, D11, N1, N2, Z1/Z2 (zipmap lengths / >= 254 pairs); known "
+            "finding C03-F1 (idle stream consumers) repaired.",
     "note": "trusted: Lean kernel, RDB format + Redis command semantics as transcribed, target double, extractor, harness; "
             "session 4: streams (stream_roundtrip), module values / module aux and the whole-file composition with them "
             "(full_sync_streams) are theorems; the Bad-data-format fall-back is proved per entry (restore_fallback_path), its "
-            "whole-file composition is open (full_sync_stmt)",
+            "whole-file composition is open (full_sync_stmt); session 5: zipmap and zset-v1 bounds lifted, C03-F1 repaired "
+            "(ecb288f), strconv.ParseFloat's correct rounding is trusted and differentially tested against an exact model",
     "technique": "Lean 4 proof (induction over encodings, GF(2)-linearity + 256-case kernel decide for CRC64) + generated-input "
                  "differential correspondence + independent Go oracle",
 }
